@@ -60,6 +60,12 @@ def atom_set(a, var, domain):
         if s is None:
             return "unknown"
         return s if pol else full - s
+    if k in ("is", "isnot") and a[1][0] == "call" and a[1][1] == "sym::find_eq" and a[1][2][1] == var and a[1][2][0][0] == "array":
+        # `arr.iter().find(|k| k == var)` is Some exactly for the members of the literal array
+        vals = {_int(x) for x in a[1][2][0][1]}
+        some = (a[2].endswith("::Some")) == (k == "is")
+        s = {x for x in full if x in vals}
+        return s if some else full - s
     if k in ("is", "isnot", "slice", "pat"):
         return "unknown" if mentions(a[1], var) else None
     return "unknown"
@@ -81,6 +87,9 @@ def term_set(t, var, full):
         if b is None:
             return None
         return {x for x in full if b[0] <= x <= b[1]}
+    if t[0] == "call" and t[1] == "core::slice::<impl [T]>::contains" and len(t[2]) == 2 and t[2][1] == var and t[2][0][0] == "array":
+        vals = {_int(x) for x in t[2][0][1]}
+        return {x for x in full if x in vals}
     if t[0] == "un" and t[1] == "not":
         s = term_set(t[2], var, full)
         return None if s is None else full - s
